@@ -8,7 +8,8 @@
             --gf_blocks_eq_full-->  sum over the parts prepare() makes (gf_stripes_complete)
             --gf_part_exact / gf_part_tolerance-->  the evaluated term list of each part
             (gf_walk_complete: the merge walk visits exactly the common inner indices;
-             termlist_eval_preserved, gf_termlist_separated: the term container)
+             termlist_eval_preserved, termlist_invariant, gf_termlist_separated: the term container, whose add_term is the
+             retry loop of TermList.h -- insert; while refused: reduce with the blocking term, erase it, drop if negligible, retry)
             container2_returns_requested: reading through GFContainer gives the object made from (c_i, c^+_j). *)
 Require Import Bool List Arith ZArith Reals Ring_theory Field_theory.
 From Coquelicot Require Import Coquelicot.
@@ -64,17 +65,16 @@ Theorem termlist_eval_preserved :
 Proof. exact TermListProofs.termlist_eval_preserved. Qed.
 Print Assumptions termlist_eval_preserved.
 
-(** the invariant that justifies modelling std::set by a sorted list: stored poles stay >= Tolerance apart, insert() is
-    never refused, erase() removes exactly the found term (any strict partial order as comparator) *)
+(** the invariant that justifies modelling std::set by a sorted list: stored poles stay >= Tolerance apart; the retry loop of
+    add_term is never cut short (no term is lost other than by the negligibility test) and goes through at most ONE merge: the
+    reduced term keeps the pole of the erased one and fits where that one was (any strict partial order as comparator) *)
 Theorem termlist_invariant :
   forall (P C : Type) (comp : P -> P -> bool) (negl : C -> nat -> bool) (cadd : C -> C -> C),
   (forall a, comp a a = false) -> (forall a b c, comp a b = true -> comp b c = true -> comp a c = true) ->
   forall (t : term P C) (l : list (term P C)), sorted_sep P C comp l ->
   sorted_sep P C comp (fst (add_term P C comp negl cadd t l)) /\
   match snd (add_term P C comp negl cadd t l) with
-  | EvRefused => False
-  | EvMerged _ _ ins => ins = true
-  | _ => True
+  | EvChain steps fin => fin <> FinFuel /\ length steps <= 1
   end.
 Proof.
   exact (fun P C comp negl cadd Hi Ht t l Hs =>
@@ -82,6 +82,26 @@ Proof.
                 (TermListProofs.add_term_never_refused P C comp negl cadd Hi Ht t l Hs)).
 Qed.
 Print Assumptions termlist_invariant.
+
+(** for ANY comparator and ANY stored sequence: the bound of the model's for(;;) (the number of stored terms: every retry erases
+    one) is never exhausted, and every step of the recorded chain is  blocker += running sum *)
+Theorem termlist_loop_terminates :
+  forall (P C : Type) (comp : P -> P -> bool) (negl : C -> nat -> bool) (cadd : C -> C -> C)
+         (t : term P C) (l : list (term P C)),
+  match snd (add_term P C comp negl cadd t l) with
+  | EvChain steps fin => fin <> FinFuel /\ chain_ok P C cadd t steps
+  end.
+Proof.
+  exact (fun P C comp negl cadd t l =>
+           match snd (add_term P C comp negl cadd t l) as e
+                 return (match e with EvChain _ fin => fin <> FinFuel end) ->
+                        (match e with EvChain steps _ => chain_ok P C cadd t steps end) ->
+                        match e with EvChain steps fin => fin <> FinFuel /\ chain_ok P C cadd t steps end
+           with EvChain steps fin => fun a b => conj a b end
+             (TermListProofs.add_term_fuel_suffices P C comp negl cadd t l)
+             (TermListProofs.add_term_chain_ok P C comp negl cadd t l)).
+Qed.
+Print Assumptions termlist_loop_terminates.
 
 (** over the reals with the library's comparator p2 - p1 >= tol, tol > 0 *)
 Theorem gf_termlist_separated :
@@ -101,6 +121,19 @@ Theorem tree_find_is_list_find :
   end = set_find P C comp k (inorder P C t).
 Proof. exact TermListProofs.tree_find_is_list_find. Qed.
 Print Assumptions tree_find_is_list_find.
+
+(** the same for insert(): the descent of _M_get_insert_unique_pos gives the verdict of the model's set_insert_res, and a refused
+    insertion points to the same blocking element (the one add_term reduces with and erases) *)
+Theorem tree_insert_is_list_insert :
+  forall (P C : Type) (comp : P -> P -> bool),
+  (forall a b c, comp a b = true -> comp b c = true -> comp a c = true) ->
+  forall (t0 : term P C) (t : tree P C), sorted_sep P C comp (inorder P C t) ->
+  match descend_last P C (fun x => comp (pole P C t0) (pole P C x)) t None with
+  | Some j => if comp (pole P C j) (pole P C t0) then None else Some j
+  | None => None
+  end = match set_insert_res P C comp t0 (inorder P C t) with Inserted _ => None | Blocked _ j _ => Some j end.
+Proof. exact TermListProofs.tree_insert_is_list_insert. Qed.
+Print Assumptions tree_insert_is_list_insert.
 
 (** * 4. a part, tolerance form *)
 (** exact error identity: value = Lehmann sum - (dropped candidates) + (errors of the term-list events) *)
@@ -138,10 +171,38 @@ Theorem merged_err_closed_form :
   forall (K : Type) (NO : numops K) (kinv : K -> K),
   field_theory (n0 K NO) (n1 K NO) (nadd K NO) (nmul K NO) (nsub K NO) (nopp K NO) (ndiv K NO) kinv (@eq K) ->
   forall z px rx pt rt : K, nsub K NO z px <> n0 K NO -> nsub K NO z pt <> n0 K NO ->
-  ev_err K K K (n0 K NO) (nadd K NO) (nsub K NO) (fz K NO z) (EvMerged [(px, rx)] (px, gf_term_add K NO rx rt) true) (pt, rt) =
+  ev_err K K K (n0 K NO) (nadd K NO) (nsub K NO) (fz K NO z)
+         (EvChain [((px, rx), (px, gf_term_add K NO rx rt))] FinInserted) (pt, rt) =
   ndiv K NO (nmul K NO rt (nsub K NO px pt)) (nmul K NO (nsub K NO z px) (nsub K NO z pt)).
 Proof. exact GFPartProofs.merged_err_closed_form. Qed.
 Print Assumptions merged_err_closed_form.
+
+(** ... of a chain of merges of any length: that expression for the first step plus the error of the rest of the chain, which
+    starts from the reduced term ... *)
+Theorem chain_err_closed_form :
+  forall (K : Type) (NO : numops K) (kinv : K -> K),
+  field_theory (n0 K NO) (n1 K NO) (nadd K NO) (nmul K NO) (nsub K NO) (nopp K NO) (ndiv K NO) kinv (@eq K) ->
+  forall (z px rx pt rt : K) (rest : list (prod (gterm K) (gterm K))) (fin : final),
+  nsub K NO z px <> n0 K NO -> nsub K NO z pt <> n0 K NO ->
+  ev_err K K K (n0 K NO) (nadd K NO) (nsub K NO) (fz K NO z)
+         (EvChain (((px, rx), (px, gf_term_add K NO rx rt)) :: rest) fin) (pt, rt) =
+  nadd K NO (ndiv K NO (nmul K NO rt (nsub K NO px pt)) (nmul K NO (nsub K NO z px) (nsub K NO z pt)))
+            (ev_err K K K (n0 K NO) (nadd K NO) (nsub K NO) (fz K NO z) (EvChain rest fin) (px, gf_term_add K NO rx rt)).
+Proof. exact GFPartProofs.chain_err_closed_form. Qed.
+Print Assumptions chain_err_closed_form.
+
+(** ... and with the library's comparator (a strict partial order) the events of a part are single merges at most, no added
+    term is lost other than by the negligibility test, and the stored poles are separated *)
+Theorem gf_part_events_short :
+  forall (K : Type) (NO : numops K) (fixed lenient : bool) (T : tols K) (inp : part_in K) (o : part_out K),
+  (forall a, gf_compare K NO (t_compare K T) a a = false) ->
+  (forall a b c, gf_compare K NO (t_compare K T) a b = true -> gf_compare K NO (t_compare K T) b c = true ->
+                 gf_compare K NO (t_compare K T) a c = true) ->
+  gf_part_compute K NO fixed lenient T inp = WDone o ->
+  sorted_sep K K (gf_compare K NO (t_compare K T)) (o_terms K o) /\
+  List.Forall (fun e => match e with EvChain steps fin => fin <> FinFuel /\ length steps <= 1 end) (o_events K o).
+Proof. exact GFPartProofs.gf_part_events_short. Qed.
+Print Assumptions gf_part_events_short.
 
 (** * 5. stripe selection of GreensFunction::prepare: exactly the block pairs (L, R) with C: L <- R and CX: R <- L *)
 Theorem gf_stripes_complete :
